@@ -219,6 +219,7 @@ def run(chk):
                     ok, info = dag.is_zero_fp(kern.mat_sub(K, want).flat(), chk.seed, 2)
                     chk.decide(ok, "iterate-ordered-product", qn, f"QED iterated kernel is not the ordered product of step exponentials ({inst})",
                                where=f.where, instance=inst, data={"witness": info}, how="PE + PIT F_p")
+    n_inst += kern.qed_product_order(chk, "iterate-ordered-product", orders=((2, 1), (3, 2)))
     # ---- QED non-singlet: product of fixed-alpha_em kernels over the steps ------------------------------
     fx = src.func(f"{kern.QNS}.exact")
     rec = []
